@@ -21,6 +21,7 @@ EXPLANATION = (
     ' Added after seed round 3: (7) a registry whose stored values are int parameters (file descriptors) is queried with `in` / `is not None`, never by the truthiness of the stored value.'
     " Round 4: the Twisted wrapper catches BaseException (the reactor swallows everything else); (8) self-made registry handles come from a counter, never from the registry's size; (9) the Twisted idle timer callback lowers its flag on every normal path."
     " Round-4 triage: (10) an idle pass calls a callback only while it is still registered; (11) a dispatch batch (select, zmq) calls a watch only while it is still the registered one; (12) twisted's doRead returns nothing; (13) the zmq poll time-out is rounded up and an empty poller sleeps; (5, restated) select / zmq dispatch an alarm after a time-out or under an explicit due test, and do not require `not ready` (no starvation); (14) fdopen()/open() of a descriptor parameter passes closefd=False (the descriptor stays its caller's); (1, extended) the tornado wrapper catches BaseException like the twisted one (asyncio re-raises only SystemExit / KeyboardInterrupt itself); (15) every loop forgets an alarm - in the terms its remove_alarm() consults - before the callback runs; (16) a loop with a watch table plus per-watch objects registered with its host unregisters the old object when a descriptor is watched again. Round-5 triage: (1, sharpened) a handler in run() of select / zmq swallows unless its body ends in an unconditional raise (zmq's `if errno != EINTR: raise` around the whole iteration is reported); (3, extended) run() of select / zmq raises _did_something before the first iteration; (17) TrioEventLoop._cancel_scope forgets a never-started task before it touches the trio scope; (18) the trio watch task re-checks its scope between the await and the callback, and a group consisting of ExitMainLoop only ends run() normally."
+    ' (19) GUARD: the loops that park a callback exception for run() to re-raise (asyncio, tornado, twisted, glib) store it only under `self._exc is None` - the first exception wins (fixes da31b14, c29ea35: a second callback raising in the same iteration replaced the first exception).'
 )
 NOT_DECIDED = "Exactly-once, not-before-due and due-order of alarms, watch repetition, idle-before-quiescence under all interleavings - scheduler semantics under time."
 ASSUMPTIONS = ["The behaviour of the foreign scheduling APIs on a raising callable (log and continue) is taken from their documentation and recorded in the per-class table."]
@@ -781,8 +782,63 @@ def rule_trio_recheck(ctx: Ctx) -> RuleResult:
     return rr
 
 
+def rule_first_exception(ctx: Ctx) -> RuleResult:
+    """'re-raised from run() exactly once': the loops that cannot stop their host loop in the middle of an iteration
+    (asyncio, tornado, twisted) park the exception of a callback in an attribute that run() raises after the host
+    loop returned.  Callbacks that were already due still run in that iteration; when one of them raises as well, the
+    parked exception must not be replaced - every parking store is made only while the attribute is still None.
+    Before fix da31b14 run() re-raised the *last* exception and the first was lost."""
+    p = ctx.p
+    rr = RuleResult("GUARD", "C13.19", "an exception parked for run() to re-raise is stored only while nothing is parked yet (`self._exc is None`): the first exception wins", floor=3)
+    for fi in p.functions.values():
+        if not fi.module.name.startswith("urwid.event_loop") or fi.is_lambda:
+            continue
+        owner = fi
+        while owner is not None and owner.cls is None:
+            owner = getattr(owner, "parent", None)
+        if owner is None:
+            continue
+        cls = owner.cls
+        run_ = cls.methods.get("run")
+        if run_ is None:
+            continue
+        cfg = None
+        for n in fi.own_nodes():
+            if not (isinstance(n, ast.Assign) and len(n.targets) == 1 and isinstance(n.targets[0], ast.Attribute) and isinstance(n.targets[0].value, ast.Name) and n.targets[0].value.id in ("self", owner.self_name) and isinstance(n.value, ast.Name)):
+                continue
+            attr = n.targets[0].attr
+            # the stored name is an exception: bound by `except ... as v`, by `v := context.get("exception")`, or a parameter named exc
+            v = n.value.id
+            is_exc = any(isinstance(h, ast.ExceptHandler) and h.name == v for h in fi.own_nodes()) or any(isinstance(w, ast.NamedExpr) and isinstance(w.target, ast.Name) and w.target.id == v and "exception" in ast.unparse(w.value) for w in fi.own_nodes())
+            # run() raises what is parked
+            raised = any(isinstance(r, ast.Raise) for r in run_.own_nodes()) and any(isinstance(a, ast.Attribute) and a.attr == attr for a in ast.walk(run_.node))
+            if not (is_exc and raised):
+                continue
+            cfg = cfg or cfg_of(fi)
+            sn = next((x for x in cfg.nodes if x.stmt is n), None)
+            if sn is None:
+                continue
+            from ..rules.exc import ExcEngine
+
+            guarded = False
+            for t in cfg.nodes:
+                if t.kind != "test":
+                    continue
+                for c in ast.walk(t.ast):
+                    if isinstance(c, ast.Compare) and len(c.ops) == 1 and isinstance(c.ops[0], ast.Is) and isinstance(c.left, ast.Attribute) and c.left.attr == attr and isinstance(c.comparators[0], ast.Constant) and c.comparators[0].value is None:
+                        # the store lies only on the true side, and the test is a conjunct (not under `or` / `not`)
+                        conj = t.ast is c or (isinstance(t.ast, ast.BoolOp) and isinstance(t.ast.op, ast.And) and any(x is c for x in t.ast.values))
+                        if conj and sn not in ExcEngine._reach_without_edge(cfg, t, "T"):
+                            guarded = True
+            ident = f"{short(fi)}: {norm(n, 40)}"
+            rr.inst(ident, True, {"store": ident, "raised_by": short(run_), "guarded_by_is_None": guarded})
+            if not guarded:
+                rr.add(finding("GUARD", fi, n, f"`{norm(n, 40)}` parks the exception for {short(run_)}() to re-raise without testing that nothing is parked yet: the host loop still runs the other callbacks that were due in this iteration, and when one of them raises too the first exception is replaced and lost - run() reports the later one", construct=f"parked exception overwritten: {norm(n, 40)}"))
+    return rr
+
+
 def run(ctx: Ctx):
-    return [rule_wrap(ctx), rule_snap(ctx), rule_idle_arming(ctx), rule_remove_returns(ctx), rule_select_zmq(ctx), rule_trio_checkpoint(ctx), rule_presence(ctx), rule_handle_unique(ctx), rule_twisted_idle_flag(ctx), rule_idle_removed(ctx), rule_batch_dispatch(ctx), rule_doread_result(ctx), rule_zmq_wait(ctx), rule_descriptor_ownership(ctx), rule_fired_alarm_forgotten(ctx), rule_rewatch_replaces(ctx), rule_trio_pending(ctx), rule_trio_recheck(ctx)]
+    return [rule_wrap(ctx), rule_snap(ctx), rule_idle_arming(ctx), rule_remove_returns(ctx), rule_select_zmq(ctx), rule_trio_checkpoint(ctx), rule_presence(ctx), rule_handle_unique(ctx), rule_twisted_idle_flag(ctx), rule_idle_removed(ctx), rule_batch_dispatch(ctx), rule_doread_result(ctx), rule_zmq_wait(ctx), rule_descriptor_ownership(ctx), rule_fired_alarm_forgotten(ctx), rule_rewatch_replaces(ctx), rule_trio_pending(ctx), rule_trio_recheck(ctx), rule_first_exception(ctx)]
 
 
 from ..mutants import Mut  # noqa: E402
@@ -790,6 +846,9 @@ from ..mutants import Mut  # noqa: E402
 _S = "urwid/event_loop/select_loop.py"
 _A = "urwid/event_loop/asyncio_loop.py"
 MUTANTS = [
+    Mut("asyncio-last-exception-wins", _A, "AsyncioEventLoop._exception_handler", "            if not isinstance(exc, ExitMainLoop) and self._exc is None:", "            if not isinstance(exc, ExitMainLoop):", "GUARD|event_loop.asyncio_loop.AsyncioEventLoop._exception_handler|parked exception overwritten"),
+    Mut("twisted-last-exception-wins", "urwid/event_loop/twisted_loop.py", "TwistedEventLoop.handle_exit", "                if self._exc is None:  # callbacks already due still run: report the first exception\n                    self._exc = exc\n", "                self._exc = exc\n", "GUARD|event_loop.twisted_loop.TwistedEventLoop.handle_exit.<locals>.wrapper|parked exception overwritten"),
+    Mut("tornado-parks-under-or", "urwid/event_loop/tornado_loop.py", "TornadoEventLoop.handle_exit", "                if self._exc is None:  # callbacks already due still run: report the first exception\n", "                if self._exc is None or exc:\n", "GUARD|event_loop.tornado_loop.TornadoEventLoop.handle_exit.<locals>.wrapper|parked exception overwritten"),
     Mut("trio-watch-no-recheck-after-await", "urwid/event_loop/trio_loop.py", "TrioEventLoop._watch_task", "                if scope.cancel_called:\n                    # removed by another callback that ran since the descriptor became readable\n                    break\n", "", "SNAP|event_loop.trio_loop.TrioEventLoop._watch_task"),
     Mut("trio-exit-group-reraised", "urwid/event_loop/trio_loop.py", "TrioEventLoop._handle_main_loop_exception", "        if isinstance(exc, BaseExceptionGroup) and len(exc.exceptions) > 1 and all(isinstance(e, ExitMainLoop) for e in exc.exceptions):\n            # several callbacks of one batch asked to exit\n            return\n", "", "SNAP|event_loop.trio_loop.TrioEventLoop._handle_main_loop_exception"),
     Mut("trio-cancel-pending-task-through-scope", "urwid/event_loop/trio_loop.py", "TrioEventLoop._cancel_scope", "        for index, (_task, pending_scope, _args) in enumerate(self._pending_tasks):\n            if pending_scope is scope:\n                # not started yet (no nursery): there is nothing to cancel, just forget the task\n                del self._pending_tasks[index]\n                return True\n", "", "PASS|event_loop.trio_loop.TrioEventLoop._cancel_scope"),
